@@ -180,6 +180,35 @@ def run_case(case, stats):
                         src = peel_same_engine_markers(ops[0])
                         if isinstance(src, (LeafRelation, Materialization)) and count_mats(res) != count_mats(ops[0]):
                             raise Violation("materialization-added", f"materialized() of a {type(src).__name__} added a Materialization node: {str(res)[:200]}; call {what}")
+                    if node[0] == "mat":
+                        # histories: the tree is processed (its materializations gain payloads), then more is built
+                        # directly on the locked node - it must stay the identical, payload-sharing object
+                        try:
+                            make_processor(envx).process(res)
+                        except Exception:
+                            pass  # C07's subject
+                        bare = peel_same_engine_markers(res)
+                        if isinstance(bare, Materialization):
+                            bidx = locked_index(bare)
+                            payload0 = bare.payload
+                            keys = {c for c in bare.columns if c.is_key}
+                            calls = [
+                                ("without_duplicates()", lambda: bare.without_duplicates()),
+                                ("chain(itself)", lambda: bare.chain(bare)),
+                                ("join(projection onto its key columns)", lambda: bare.join(bare.with_only_columns(keys))),
+                                ("with_only_columns(all)", lambda: bare.with_only_columns(set(bare.columns))),
+                            ]
+                            for lbl, call in calls:
+                                try:
+                                    out = call()
+                                except Exception as e:
+                                    if is_order_loss(e) or isinstance(e, (ColumnError, EngineError)):
+                                        continue
+                                    raise Violation("call-raised", f"{lbl} on the bare materialization of {what}: {type(e).__name__}: {e}", sig=exc_sig(e))
+                                check_locked(out, bidx, f"{lbl} on the bare materialization node of {what}")
+                                if bare.payload is not payload0:
+                                    raise Violation("locked-node-rewritten", f"{lbl}: the payload of the input materialization was replaced; {what}", node_kind="mat")
+                                stats.c["calls_on_bare_cached_materialization"] += 1
                     if node[0] == "xfer":
                         dest = envx.engines[node[2]]
                         if res.engine is not dest:
